@@ -322,4 +322,19 @@ example : okIs (format (mkCfg .pretty .dflt false) rawToks)
     tokenizer in between; checked by the oracle (`convenience`) and the correspondence stream (`via: parser`).
 -/
 
+/-! #### known finding `C11-singleton-joined` (kept in the model as it is in the code)
+
+The token sequence the stdlib tokenizer reports for `<div>a <\nb</div>` holds the data singleton `<` followed by the data
+piece `\nb`.  The data rule strips the line break of the second piece, so the mini and the pretty formatter write `<b`,
+which reads back as a start tag: the output does not parse back to the input's tree.  Same on the real library (replayed on
+every run from `corpus/C11/finding-singleton-joined*.json`); this is why the string-level theorems above exclude the data
+singletons (`NotSingleton`). -/
+def singletonJoinedToks : List Tok :=
+  [.start (str "div") [], .data (str "a "), .data (str "<"), .data (str "\nb"), .end_ (str "div")]
+
+theorem singleton_joined_counterexample :
+    okIs (format (mkCfg .mini .dflt false) singletonJoinedToks) "<div >a <b</div>" = true ∧
+    okIs (format (mkCfg .pretty (.str (str "  ")) false) singletonJoinedToks) "\n<div >a <b\n</div>" = true ∧
+    okIs (Plain.html singletonJoinedToks) "<div >a <\nb</div>" = true := by decide
+
 end AHP.C11
